@@ -176,9 +176,11 @@ PROPS = {
              'comparison; non-trivial = more than one node; distinct = distinct node table / learner configuration',
     ),    'C14': dict(
         module='c14',
-        modules=['DeeprobModel.Props.C14', 'DeeprobModel.Oblig.C14'],
-        theorems=['Deeprob.C14.em_prefix_inv', 'Deeprob.C14.backward_is_derivative_partial', 'Deeprob.C14.root_affine_in_node_partial',
-                  'Deeprob.C14.resp_sum_one', 'Deeprob.Oblig.C14.sum_em_simplex', 'Deeprob.Oblig.C14.bernoulli_em_range',
+        modules=['DeeprobModel.Props.C14', 'DeeprobModel.Props.C14Net', 'DeeprobModel.Oblig.C14'],
+        theorems=['Deeprob.C14.em_prefix_inv', 'Deeprob.C14.backward_is_derivative', 'Deeprob.C14.backward_is_derivative_valid',
+                  'Deeprob.C14.root_affine_in_node', 'Deeprob.C14.backward_is_reverse_mode', 'Deeprob.C14.resp_is_posterior',
+                  'Deeprob.C14.resp_is_mass_through_node', 'Deeprob.C14.resp_root_sums_to_one', 'Deeprob.C14.backward_tree_agrees',
+                  'Deeprob.C14.decomposability_needed', 'Deeprob.C14.resp_sum_one', 'Deeprob.Oblig.C14.sum_em_simplex', 'Deeprob.Oblig.C14.bernoulli_em_range',
                   'Deeprob.Oblig.C14.categorical_em_simplex', 'Deeprob.Oblig.C14.gaussian_em_sigma_pos', 'Deeprob.Oblig.C14.clt_em_cell_in_unit_pa1',
                   'Deeprob.Oblig.C14.clt_em_cell_in_unit_pa0', 'Deeprob.Oblig.C14.clt_em_rows_normalised', 'Deeprob.Oblig.C14.clt_em_table_ok',
                   'Deeprob.Oblig.C14.sum_is_convex_update', 'Deeprob.Oblig.C14.bernoulli_is_convex_update', 'Deeprob.Oblig.C14.categorical_is_convex_update',
@@ -191,8 +193,9 @@ PROPS = {
              'validity, simplex / domain / normalisation invariants, and every parameter against the model step (generated formulas '
              'at Q on the exact responsibilities of that batch); non-trivial = every circuit (all have a sum node); distinct = '
              'distinct node table',
-        level_note='backward_is_derivative is proved for tree-shaped circuits (…_partial); for DAGs the backward pass of the model is tied to '
-                   'the implementation by the per-parameter comparison only. Trusted as for the other checks.',
+        level_note='backward_is_derivative is proved for DAGs with sharing (decomposable tables); the log-domain implementation of the backward '
+                   'pass (float32, division by child values) is tied to the division-free model through the per-parameter comparison of every EM '
+                   'step. Trusted as for the other checks.',
     ),    'C18': dict(
         module='c18',
         modules=['DeeprobModel.Props.C18', 'DeeprobModel.Props.Clt'],
